@@ -50,13 +50,16 @@ Inductive sel :=
 | SInline (cond : str) (extra : N) (sub : list sel) (line : N)
 | SSpread (name : str) (extra : N) (line : N).
 
-Record fragment := { fr_name : str; fr_on : str; fr_extra : N; fr_sel : list sel; fr_line : N }.
+Record fragment := { fr_name : str; fr_on : str; fr_extra : N; fr_sel : list sel; fr_line : N; fr_src : nat }.
+Record vardef := { vd_name : str; vd_type : tyref; vd_line : N }.
 Record operation := {
   op_kind : N;                (* 0 query, 1 mutation, 2 subscription *)
   op_name : str;
   op_extra : N;               (* variable definitions (names, types, defaults, directives) and operation directives *)
   op_sel : list sel;
   op_line : N;
+  op_src : nat;               (* index of the source (file or Go literal) the definition was read from *)
+  op_vars : list vardef;
 }.
 
 Definition typename_name : str := b "__typename".
